@@ -1,6 +1,8 @@
 import Compass.Drv.Proto
 import Compass.Model.Container
 import Compass.Model.StateModel
+import Compass.Model.StateJson
+import Compass.Drv.JsonProto
 
 namespace Compass.Drv.C11
 open Compass Compass.Proto
@@ -111,6 +113,26 @@ def exS (f : β → String) : Except StateErr β → String
   | .ok b => "ok " ++ f b
   | .error e => "err " ++ e.name
 
+def toNumF (x : Float) : Json := .num "" x.toBits.toNat
+def ofBitsF (n : Nat) : Float := Float.ofBits n.toUInt64
+
+/-- JSON printed for comparison: integer numbers by lexeme, other numbers by bit pattern (the model does
+    not compute decimal float lexemes) -/
+partial def jb : Json → String
+  | .null => "z"
+  | .bool true => "t"
+  | .bool false => "f"
+  | .num l b => if l.isEmpty then s!"nf {b}" else s!"ni {l}"
+  | .str s => "s " ++ JsonProto.hexOfStr s
+  | .arr xs => joinSp (("a " ++ toString xs.length) :: xs.map jb)
+  | .obj kvs => joinSp (("o " ++ toString kvs.length) :: kvs.map fun (k, v) => JsonProto.hexOfStr k ++ " " ++ jb v)
+
+def fmtS : CustomFeatureFormat Float → String
+  | .floatingPoint i => s!"f:{floatOut i}"
+  | .signedInteger i => s!"i:{i}"
+  | .unsignedInteger i => s!"u:{i}"
+  | .boolean i => s!"b:{if i then 1 else 0}"
+
 def modelS (u : Nat) (m : SM) : String :=
   let names := (List.range u).map (fun i => s!"f{i}")
   joinSp [
@@ -120,7 +142,7 @@ def modelS (u : Nat) (m : SM) : String :=
     "has", joinSp (names.map (fun n => if m.containsKey n then "1" else "0")),
     "iter", listS (m.indexedIter.map (fun (i, (n, f)) => s!"{i}:{n}:{featS f}")),
     "vec", listS (m.toVec.map (fun (n, e) => s!"{n}:{e.index}:{featS e.v}")),
-    "ssm", listS (sortByName (m.serializeStateModel.map (fun (n, i, _) => (n, s!"{n}:{i}"))))]
+    "ssm", jb (StateJson.serializeStateModelJson toNumF m)]
 
 structure SmSt where
   m : SM
@@ -184,10 +206,11 @@ def smOp (u : Nat) (s : SmSt) : P (SmSt × String) := do
     pure (s, listS (sortByName ((s.m.serializeState s.st).map (fun (n, x) => (n, s!"{n}:{floatOut x}")))))
   | _ => failure
 
-def smCase : P String := do
+/-- `sm`: `StateModel::new(features)`; `smf`: `StateModel::from(features)`; `sme`: `StateModel::empty()` -/
+def smCase (kind : String) : P String := do
   let u ← nat
-  let fs ← listOf namedFeatureP
-  let m : SM := StateModel.new fs
+  let fs ← (if kind == "sme" then pure [] else listOf namedFeatureP)
+  let m : SM := if kind == "sme" then StateModel.empty else StateModel.new fs
   let nops ← nat
   let rec go : Nat → SmSt → List String → P (List String)
     | 0, _, acc => pure acc.reverse
@@ -198,34 +221,120 @@ def smCase : P String := do
   endOfLine
   pure (joinSp (tokens (joinSp outs)))
 
-/-! ### `collect_features` cases: `cf <configured> <traversal> <access> (n | s <user features>)`;
-    the collected list is printed sorted by name (stable), then the configured model extended by it
-    (slots of new names depend on `HashMap` order, so only the configured names' slots are printed) -/
+/-! ### `collect_features` cases: `cf U <configured> <traversal> <access> <query json>`: the collected
+    list (model part in order, then the query's part sorted by name — it comes out of a `HashMap`), then
+    the configured model extended by it -/
 
 def cfCase : P String := do
+  let u ← nat
   let cfg ← listOf namedFeatureP
   let tr ← listOf namedFeatureP
   let ac ← listOf namedFeatureP
-  let us ← optOf (listOf namedFeatureP)
+  let q ← JsonProto.json
   endOfLine
   let m0 : SM := StateModel.new cfg
-  match collectFeatures tr ac us with
-  | .error e => pure ("err " ++ e.name)
+  match collectFeaturesQuery ofBitsF tr ac q with
+  | .error e =>
+    -- several offending entries of different kinds: which one is reported depends on `HashMap` order
+    let modelFeatures := HMap.ofList (tr ++ ac)
+    let user := match queryStateFeatures ofBitsF q with
+      | .ok (some fs) => fs
+      | _ => []
+    let unk := user.any (fun p => (HMap.get modelFeatures p.1).isNone)
+    let fty := user.any (fun p => match HMap.get modelFeatures p.1 with
+      | some ex => ex.featureType != p.2.featureType
+      | none => false)
+    pure (if unk && fty then "err ftype|unk" else "err " ++ e.name)
   | .ok fs =>
-    let collected := "ok " ++ listS (sortByName (fs.map (fun (n, f) => (n, s!"{n}:{featS f}"))))
+    let nModel := (HMap.ofList (tr ++ ac)).length
+    let fS := fun (p : String × SF) => s!"{p.1}:{featS p.2}"
+    let collected := joinSp ["ok", listS ((fs.take nModel).map fS),
+      listS (sortByName ((fs.drop nModel).map (fun p => (p.1, fS p))))]
     match m0.extend fs with
-    | .error e => pure (collected ++ " | err " ++ e.name)
-    | .ok m =>
-      pure (joinSp (tokens (joinSp [collected, "| ok len", toString m.len,
-        "cfgidx", joinSp (cfg.map (fun (n, _) => optS toString (m.getIndex n))),
-        "feats", listS (sortByName (m.iter.map (fun (n, f) => (n, s!"{n}:{featS f}"))))])))
+    | .error e => pure (joinSp (tokens (collected ++ " | err " ++ e.name)))
+    | .ok m => pure (joinSp (tokens (joinSp [collected, "| ok", modelS u m])))
+
+/-! ### direct calls: `feat <f> <g> <x bits> <i> <u> <b>` — every method of `StateFeature` on `f`, `f == g`,
+    serde round trip, and every codec method of `f.get_feature_format()` on the given values -/
+
+def featCase : P String := do
+  let f ← featureP
+  let g ← featureP
+  let x ← float; let i ← int; let n ← nat; let b ← bool
+  endOfLine
+  let unitS := fun {β : Type} (nm : β → String) (r : Except StateErr β) => exS nm r
+  let fm := f.getFeatureFormat
+  let js := StateJson.featureToJson toNumF f
+  let boolS := fun (b : Bool) => if b then "1" else "0"
+  pure (joinSp (tokens (joinSp [
+    "type", JsonProto.hexOfStr f.featureType, "unit", JsonProto.hexOfStr f.featureUnitName,
+    "fmt", fmtS fm, "init", exS floatOut f.getInitial,
+    "du", unitS DistanceUnit.name f.getDistanceUnit, "tu", unitS TimeUnit.name f.getTimeUnit,
+    "eu", unitS EnergyUnit.name f.getEnergyUnit, "cf", exS fmtS f.getCustomFeatureFormat,
+    "eq", boolS (f.eqv g), "json", jb js,
+    "parse", optS featS (StateJson.parseFeature ofBitsF js),
+    "| name", fm.name, "def", fmtS (CustomFeatureFormat.default : CustomFeatureFormat Float),
+    "init", exS floatOut fm.initial,
+    "encf", exS floatOut (fm.encodeF64 x), "enci", exS floatOut (fm.encodeI64 i),
+    "encu", exS floatOut (fm.encodeU64 n), "encb", exS floatOut (fm.encodeBool b),
+    "decf", exS floatOut (fm.decodeF64 x), "deci", exS toString (fm.decodeI64 x),
+    "decu", exS toString (fm.decodeU64 x), "decb", exS boolS (fm.decodeBool x)])))
+
+/-! ### `smjson U <json>`: `StateModel::try_from(&json)`; `parse <json>`: one `StateFeature` from JSON -/
+
+def smJsonCase : P String := do
+  let u ← nat
+  let j ← JsonProto.json
+  endOfLine
+  match StateJson.tryFrom ofBitsF j with
+  | .error e => pure ("err " ++ e.name)
+  | .ok m => pure (joinSp (tokens ("ok " ++ modelS u m)))
+
+def parseCase : P String := do
+  let j ← JsonProto.json
+  endOfLine
+  pure (optS featS (StateJson.parseFeature ofBitsF j))
+
+/-! ### `bsi U <configured> <traversal variants> <access variants> nq <query json>*`:
+    `SearchApp::build_search_instance` on a sequence of queries against one application -/
+
+def bsiCase : P String := do
+  let u ← nat
+  let cfg ← listOf namedFeatureP
+  let trs ← listOf (listOf namedFeatureP)
+  let acs ← listOf (listOf namedFeatureP)
+  let qs ← listOf JsonProto.json
+  endOfLine
+  let m0 : SM := StateModel.new cfg
+  let flag := fun (q : Json) (k : String) => (Json.get? q k).isSome
+  let pick := fun (q : Json) (k failK : String) (vs : List (List (String × SF))) =>
+    if flag q failK then none
+    else match Json.get? q k with
+      | none => vs[0]?
+      | some j => match Json.asU64? j with
+        | some i => vs[i]?
+        | none => none
+  let one := fun (q : Json) =>
+    let r := buildSearchInstanceState ofBitsF m0 (pick q "tm" "tm_fail" trs) (pick q "am" "am_fail" acs) q
+      (fun m => !(flag q "weights") && m.len > 0) (fun _ => !(flag q "fm_fail"))
+    let rs := match r with
+      | .ok m => "ok " ++ modelS u m
+      | .error e => "err " ++ e.name
+    joinSp ["|", rs, "| cfg", listS m0.names]
+  pure (joinSp (tokens (joinSp (qs.map one))))
 
 def case : P String := do
   let kind ← next
   match kind with
   | "cont" => contCase
-  | "sm" => smCase
+  | "sm" => smCase "sm"
+  | "smf" => smCase "smf"
+  | "sme" => smCase "sme"
   | "cf" => cfCase
+  | "feat" => featCase
+  | "smjson" => smJsonCase
+  | "parse" => parseCase
+  | "bsi" => bsiCase
   | _ => failure
 
 def run (line : String) : String := Proto.run case line
